@@ -5,6 +5,7 @@ import (
 	"encoding/binary"
 	"fmt"
 	"strings"
+	"sync"
 
 	bin "github.com/gagliardetto/binary"
 	"github.com/gagliardetto/solana-go"
@@ -18,6 +19,26 @@ import (
 	"golang.org/x/exp/mmap"
 	"k8s.io/klog/v2"
 )
+
+// closeSafeReaderAt makes Close wait for the reads in flight. An epoch can be replaced or removed (config
+// reload) while request handlers still read from its files; unmapping a file under a running ReadAt is a
+// SIGSEGV that ends the whole process. After Close the reads fail with the error of the underlying reader.
+type closeSafeReaderAt struct {
+	mu  sync.RWMutex
+	rac ReaderAtCloser
+}
+
+func (r *closeSafeReaderAt) ReadAt(p []byte, off int64) (int, error) {
+	r.mu.RLock()
+	defer r.mu.RUnlock()
+	return r.rac.ReadAt(p, off)
+}
+
+func (r *closeSafeReaderAt) Close() error {
+	r.mu.Lock()
+	defer r.mu.Unlock()
+	return r.rac.Close()
+}
 
 // openIndexStorage open a compactindex from a local file, or from a remote URL.
 // Supported protocols are:
@@ -46,10 +67,11 @@ func openIndexStorage(
 	}
 	// TODO: add support for IPFS gateways.
 	// TODO: add support for Filecoin gateways.
-	rac, err := mmap.Open(where)
+	mapped, err := mmap.Open(where)
 	if err != nil {
 		return nil, fmt.Errorf("failed to open local index file: %w", err)
 	}
+	rac := &closeSafeReaderAt{rac: mapped}
 	if !klog.V(5).Enabled() {
 		return rac, nil
 	}
